@@ -16,7 +16,9 @@ earlier = []
 anch = P.get("anchors", {}); anch = anch.get("files", []) if isinstance(anch, dict) else []
 for m in sorted(glob.glob("/verif/seeded/m*/meta.json")):
     mm = json.load(open(m)); touched = [l.split(" b/")[-1].strip() for l in open(os.path.dirname(m) + "/patch.diff") if l.startswith("diff --git")]
-    if mm["breaks_property"] == prop or any(t in anch for t in touched):
+    related = {"C05": ["C04", "C16", "C19"], "C01": ["C07", "C19", "C20"], "C07": ["C01", "C20"], "C19": ["C01", "C04", "C05", "C16"], "C04": ["C05", "C16", "C19"],
+               "C16": ["C04", "C05", "C19"], "C17": ["C18"], "C18": ["C17", "C20"], "C11": ["C12"], "C12": ["C11"], "C09": ["C10"], "C10": ["C09"], "C08": ["C07"]}.get(prop, [])
+    if mm["breaks_property"] == prop or mm["breaks_property"] in related or any(t in anch for t in touched):
         earlier.append("- (%s) %s" % (", ".join(touched), mm["needs_to_manifest"]))
 ptxt = json.dumps({k: P[k] for k in P if k != "id"}, indent=1)
 open(wt + "/TASK.md", "w").write(f"""# Task
